@@ -8,6 +8,19 @@ ops
   pipe     the same kernels driven directly on numpy arrays that are already in sorted order (the
            orchestration of journal_table re-stated in run(); supplementary volume, microseconds per case)
   indices  ordered_generate_journalling_indices alone on arbitrary (also unsorted / duplicated) arrays
+
+Strengthening (work/SC17): a table case also carries
+  kd     key dtype: any numpy integer / float dtype (keys = the actual values, planted at the dtype's extremes and
+         beyond 2^53) or S<w> (keys = byte strings incl. blanks, tabs, embedded NULs, bytes >= 0x80; the model receives the
+         bytes and orders them through Model/JournalKeys.key_enc, proved to be an order isomorphism)
+  cs     value given to ops.DEFAULT_CHUNKSIZE and to every `chunksize=` / `chunk_size=` default of operations.py during
+         the call (the model takes it as a parameter: journal_table_sized)
+  scs    chunk size of the fields / of the Session
+  vft    order-preserving map from the model's integer j_valid_from to the float timestamps given to the real code
+  form   df (DataFrames) | h5 (raw h5py groups, as journal_test_harness passes them) | alias (old_src is new_src)
+  twice  journal the same two tables a second time into a second destination (no state may leak between calls)
+  fields[i].d  dtype of a numeric payload (int8 .. uint64, float32/64, S<w> fixed strings; values at the extremes)
+and every table case checks that journal_table left its two input tables unchanged.
 """
 import itertools, json, hashlib
 
@@ -18,11 +31,26 @@ MODES_THOROUGH = ['jit', 'nojit', 'bounds']
 LEVEL = 'proof'
 TIMEOUT_S = 30.0
 
-RULE = ('table (HDF5, ~10 ms/case, jit mode only in the quick tier): every old table of <= 3 rows over 3 keys x 2 '
-        'j_valid_from values in every physical order x every snapshot that is an arrangement of a subset of 3 keys '
-        '(one only-new key), each with 3 difference patterns (none / all / seeded per-key choice among '
-        'same, numeric-only, string-only, both), 1-2 payload columns (numeric + indexed string), key dtype '
-        'int32/int64/S1 rotated; plus seeded samples of 4-6 row tables. pipe (kernels on sorted arrays, both modes): '
+RULE = ('table (HDF5, ~10 ms/case; every case in one of jit / nojit chosen by hash, tagged cases in all modes): '
+        'A. every old table of <= 3 rows over 3 keys x 2 j_valid_from values in every physical order x every snapshot that '
+        'is an arrangement of a subset of 3 keys (one only-new key), each with 3 difference patterns (none / all / seeded '
+        'per-key choice among same, numeric-only, string-only, both), 1-2 payload columns, key dtype int32/int64/S1 rotated; '
+        'B. every sequence of <= 3 key blocks (1-2 old versions x snapshot record absent / unchanged / changed, or only-new '
+        'key) x EVERY segment size cs from 1 to the number of result rows (cs = ops.DEFAULT_CHUNKSIZE and every chunksize '
+        'default of operations.py during the call); C. fixed-string keys: every pair of the 49 distinct S2 cells over the '
+        'bytes {NUL, tab, blank, A, a, 0x80, 0xff} with the snapshot physically descending (every third pair also '
+        'ascending), seeded S3/S4/S8 keys sharing a stem; D. numeric keys: every pair of the extreme values of int8, uint8, '
+        'int32, int64, uint64, float32, float64 (thorough: + int16, uint16, uint32) in both snapshot orders; E. payload '
+        'domains: int8 / int64 at +-2^62.. / uint64 / float32 at 2^24 / float64 at 2^53 / fixed-string S2 payloads, strings '
+        'with 2-3-byte characters and cells >= 256 bytes that differ only at the end, differences confined to one column; '
+        'F. seeded tables of 8-48 rows, up to 24 keys and 4 versions with cs in 1..16; G. old_src is new_src; H. seeded 4-6 '
+        'row tables. Over all groups rotate: cs in {1,2,3,4,5,7,2^20}, field chunk size in {1,2,3,5,7,8,64,4096,2^20}, the '
+        'map from integer j_valid_from to float timestamps (identity / 2^-10 s apart / negative halves / multiples of 2^60), '
+        'argument form (DataFrames / raw h5py groups), a second journalling of the same tables; every case checks that both '
+        'source tables are unchanged afterwards. I. change-directed: every new small integer literal K of the tree under '
+        'test is planted as number of rows of the old table / the snapshot / the result, run of versions, segment size, '
+        'field chunk size (K-1, K, K+1, 2K-1, 2K, 2K+1, 3K, up to 520 rows), key width, string-cell length and number of '
+        'compared fields. pipe (kernels on sorted arrays, both modes): '
         'every non-decreasing old key list of <= 5 rows over 3 keys x every strictly increasing snapshot over 4 keys '
         'x every per-matched-key difference pattern in {same, num, str, both}. indices: every old list of <= 4 '
         'entries over 3 symbols x every new list of <= 3 entries over 4 symbols (also unsorted: model = code). '
@@ -32,15 +60,22 @@ TRUSTED = ['numpy argsort(kind=stable), fancy indexing and Session.dataset_sort_
            'Gallina (Model/Journal.v: argsort, take, dataset_sort_index, apply_index_str) and tied to the real '
            'functions only by this correspondence run',
            'h5py/ExeTera field storage round-trip (write of the destination arrays, read-back of .data/.indices/.values)',
-           'keys, j_valid_from values and numeric payloads are exactly representable integers (no NaN, no overflow)']
+           'numeric keys, j_valid_from values and numeric payloads are exactly representable in their dtype (no NaN, no '
+           'overflow); the harness maps the model\'s integer j_valid_from / payload values into the dtype by strictly '
+           'increasing (resp. injective) maps (_vf, _pmap in harness/props/C17.py)',
+           'the order numpy and numba give to S<w> cells is the bytewise unsigned order of the NUL-padded cells (this is the '
+           'order the model uses: Model/JournalKeys.key_enc, proved an order isomorphism; tied to the real code by the '
+           'fixed-string-key cases of this run)']
 ASSUMPTIONS = ['snapshot keys are unique', 'old and new column of a field have the same kind and dtype',
                'schema lists the payload fields; primary key / j_valid_from / j_valid_to are not written to the result '
-               '(journal_table skips them)']
+               '(journal_table skips them)',
+               'payload kinds: numeric, fixed-string (compared and copied like numeric data) and indexed-string columns']
 TECHNIQUE = ('Coq proof (statement-level Gallina model of journal_table and its six kernels = per-key history spec) + '
              'exhaustive small-scope differential correspondence against the real journal_table on HDF5 groups')
 LEVEL_TEXT = ('Theorems in coq/Props/C17.v prove, for all tables and all sizes, that the Gallina model of '
               'journal_table (sort indices, ordered_generate_journalling_indices, compare_*_rows_for_journalling, '
-              'merge_*journalled_entries*) returns exactly the columns of the per-key history specification; the model '
+              'merge_*journalled_entries*) returns exactly the columns of the per-key history specification, for integer and '
+              'for fixed-width byte-string keys (order isomorphism key_enc) and whatever the chunk-size parameters; the model '
               'is tied to the code by running the extracted model, the extracted spec and the real code on the same '
               'generated cases.')
 LEVEL_NOTE = ('Trusted: Coq kernel, extraction, harness; numpy stable argsort / fancy indexing and the ExeTera field '
@@ -52,6 +87,7 @@ _ds = None
 _count = 0
 RECYCLE = 16      # cases per BytesIO-backed dataset (the in-memory HDF5 image is never shrunk: keep it small)
 _cache = {}
+_sized = []       # (name, original function, parameter name) of every operations.py function with a chunk-size default
 
 
 class _Schema:
@@ -64,11 +100,74 @@ def setup():
     import numpy as np
     from exetera.core import operations as ops, session, journal
     _np, _ops, _session, _journal = np, ops, session, journal
-    import os
+    import os, inspect
     if os.environ.get('VERIF_C17_FAULTLOG'):
         import faulthandler
         faulthandler.enable(file=open('%s.%s.%d' % (os.environ['VERIF_C17_FAULTLOG'], os.environ.get('VERIF_MODE', ''), os.getpid()), 'w'),
                             all_threads=True)
+    # every plain-python function of operations.py that hard-wires a chunk size as a default argument
+    del _sized[:]
+    for name, fn in sorted(vars(ops).items()):
+        if not inspect.isfunction(fn) or getattr(fn, '__module__', None) != ops.__name__:
+            continue
+        try:
+            sig = inspect.signature(fn)
+        except (TypeError, ValueError):
+            continue
+        for pn in ('chunksize', 'chunk_size'):
+            prm = sig.parameters.get(pn)
+            if prm is not None and isinstance(prm.default, int) and not isinstance(prm.default, bool):
+                _sized.append((name, fn, pn))
+
+
+class _Sizes:
+    """ops.DEFAULT_CHUNKSIZE := cs, every `chunksize=<int>` default of operations.py := cs, Session.chunksize := scs
+    for the duration of one journal_table call (module attributes are wrapped, /repo is never edited)."""
+
+    def __init__(self, cs, scs, sess):
+        self.cs, self.scs, self.sess = cs, scs, sess
+
+    def __enter__(self):
+        import functools
+        ops = _ops
+        self.saved = [('DEFAULT_CHUNKSIZE', ops.DEFAULT_CHUNKSIZE)]
+        self.sess_cs = self.sess.chunksize
+        if self.cs is not None:
+            ops.DEFAULT_CHUNKSIZE = self.cs
+            for name, fn, pn in _sized:
+                if getattr(ops, name, None) is fn:
+                    self.saved.append((name, fn))
+
+                    def wrapped(*a, fn_=fn, pn_=pn, cs_=self.cs, **kw):
+                        try:
+                            given = pn_ in inspect_sig(fn_).bind_partial(*a, **kw).arguments
+                        except TypeError:
+                            given = True
+                        if not given:
+                            kw[pn_] = cs_
+                        return fn_(*a, **kw)
+                    functools.update_wrapper(wrapped, fn)
+                    setattr(ops, name, wrapped)
+        if self.scs is not None:
+            self.sess.chunksize = self.scs
+        return self
+
+    def __exit__(self, *exc):
+        for name, v in self.saved:
+            setattr(_ops, name, v)
+        self.sess.chunksize = self.sess_cs
+        return False
+
+
+_sigs = {}
+
+
+def inspect_sig(fn):
+    sg = _sigs.get(fn)
+    if sg is None:
+        import inspect
+        sg = _sigs[fn] = inspect.signature(fn)
+    return sg
 
 
 def warmup():
@@ -81,6 +180,17 @@ def warmup():
          'fields': [{'k': 'n', 'o': [1, 2, 3], 'n': [2, 5]}]})
     run({'op': 'table', 'kd': 'int64', 'okeys': [], 'ovf': [], 'nkeys': [],
          'fields': [{'k': 's', 'o': [], 'n': []}]})
+    # every key dtype / payload dtype compiles its own specialisation of the kernels
+    for kd in NUM_KD_QUICK:        # (the dtypes only the thorough tier uses are compiled on first use)
+        pal = KEY_PALETTE[kd]
+        run({'op': 'table', 'kd': kd, 'okeys': [pal[1], pal[0], pal[0]], 'ovf': [1, 2, 1], 'nkeys': [pal[2], pal[0]],
+             'cs': 1, 'scs': 2, 'vft': 1, 'fields': [{'k': 'n', 'o': [1, 2, 3], 'n': [2, 5]}]})
+    for w in (2, 3, 4, 8):
+        run({'op': 'table', 'kd': 'S%d' % w, 'okeys': [[98], [97, 32], [97, 32]], 'ovf': [1, 2, 1], 'nkeys': [[99], [97, 32]],
+             'cs': 2, 'fields': [{'k': 'n', 'o': [1, 2, 3], 'n': [2, 5]}]})
+    for d in PAYLOAD_D_QUICK:
+        f = _retype({'k': 'n', 'o': [1, 2, 3], 'n': [2, 5]}, d)
+        run({'op': 'table', 'kd': 'int32', 'okeys': [1, 0, 0], 'ovf': [1, 2, 1], 'nkeys': [2, 0], 'fields': [f]})
     # the forked children must not share an open h5py file / Session with the parent
     global _sess, _ds
     try:
@@ -103,7 +213,7 @@ def _trim():
 
 
 def _str(bs):
-    return bytes(bs).decode('ascii')
+    return bytes(bs).decode('utf-8')
 
 
 def _enc(np, strs):
@@ -117,6 +227,76 @@ def _enc(np, strs):
 
 def _ints(a):
     return [int(x) for x in a]
+
+
+# ---- key / payload / timestamp encodings (harness side of the wire) ------------------------------------------------
+def _swidth(d):
+    """width of a fixed-string dtype name 'S<w>' (None for anything else)"""
+    if isinstance(d, str) and d[:1] == 'S' and d[1:].isdigit():
+        return int(d[1:])
+    return None
+
+
+def _code(bs, w):
+    """big-endian value of the NUL-padded cell (python restatement of Model/JournalKeys.key_enc; used only for the
+    features / the precondition, the model computes its own)"""
+    return int.from_bytes(bytes(bs).ljust(w, b'\0'), 'big')
+
+
+def _kz(case):
+    """the keys of a table / pipe case as integers ordered like the keys themselves"""
+    w = _swidth(case.get('kd'))
+    if w is not None and w >= 2:
+        return [_code(k, w) for k in case['okeys']], [_code(k, w) for k in case['nkeys']]
+    return case['okeys'], case['nkeys']
+
+
+def _vf(z, vft):
+    # strictly increasing maps Z -> float64, exact on the small integers used
+    if vft == 1:
+        return 1.6e9 + z * 2.0 ** -10          # realistic time stamps less than a second apart
+    if vft == 2:
+        return -(2.0 ** 40) + z * 0.5          # negative, fractional
+    if vft == 3:
+        return z * 2.0 ** 60                   # far beyond 2^53
+    return float(z)
+
+
+def _key_array(np, kd, keys):
+    w = _swidth(kd)
+    if w == 1:
+        return np.array([bytes([97 + k]) for k in keys], dtype='S1')
+    if w is not None:
+        return np.array([bytes(k) for k in keys], dtype=kd)
+    return np.array(keys, dtype=kd)
+
+
+def _num_array(np, d, vals):
+    w = _swidth(d)
+    if w is not None:
+        return np.array([int(v).to_bytes(w, 'big') for v in vals], dtype=d)
+    return np.array(vals, dtype=d)
+
+
+def _num_out(np, d, arr):
+    w = _swidth(d)
+    if w is not None:
+        return [int.from_bytes(bytes(x).ljust(w, b'\0'), 'big') for x in arr.tolist()]
+    return _ints(arr)
+
+
+def _create_key(s, df, kd, scs):
+    w = _swidth(kd)
+    if w is not None:
+        return s.create_fixed_string(df, 'id', w, chunksize=scs)
+    return s.create_numeric(df, 'id', kd, chunksize=scs)
+
+
+def _create_num(s, df, nm, d, scs):
+    w = _swidth(d)
+    if w is not None:
+        return s.create_fixed_string(df, nm, w, chunksize=scs)
+    return s.create_numeric(df, nm, d, chunksize=scs)
 
 
 def _run_table(case):
@@ -137,50 +317,91 @@ def _run_table(case):
     s, ds = _sess, _ds
     tag = str(_count)
     kd = case['kd']
+    cs, scs, vft = case.get('cs'), case.get('scs'), case.get('vft', 0)
+    form = case.get('form', 'df')
     names = ['f%d' % i for i in range(len(case['fields']))]
+    dts = [f.get('d', 'int64') for f in case['fields']]
 
     def mk(prefix, keys, vf, which):
         # input tables are only read by journal_table: identical ones are shared between consecutive cases
-        key = json.dumps([prefix, kd, keys, vf, [[f['k'], f[which]] for f in case['fields']]])
-        df = _cache.get(key)
-        if df is not None:
-            return df
+        key = json.dumps([prefix, kd, scs, keys, vf, [[f['k'], f.get('d'), f[which]] for f in case['fields']]])
+        ent = _cache.get(key)
+        if ent is not None:
+            return ent
         df = ds.create_dataframe(prefix + tag)
-        if kd == 'S1':
-            s.create_fixed_string(df, 'id', 1).data.write(np.array([bytes([97 + k]) for k in keys], dtype='S1'))
-        else:
-            s.create_numeric(df, 'id', kd).data.write(np.array(keys, dtype=kd))
-        s.create_timestamp(df, 'j_valid_from').data.write(np.array(vf, dtype=np.float64))
-        s.create_timestamp(df, 'j_valid_to').data.write(np.array([9e9] * len(keys), dtype=np.float64))
-        for nm, f in zip(names, case['fields']):
+        written = {}
+        written['id'] = _key_array(np, kd, keys)
+        _create_key(s, df, kd, scs).data.write(written['id'])
+        written['j_valid_from'] = np.array(vf, dtype=np.float64)
+        s.create_timestamp(df, 'j_valid_from', chunksize=scs).data.write(written['j_valid_from'])
+        written['j_valid_to'] = np.array([9e9] * len(keys), dtype=np.float64)
+        s.create_timestamp(df, 'j_valid_to', chunksize=scs).data.write(written['j_valid_to'])
+        for nm, f, d in zip(names, case['fields'], dts):
             if f['k'] == 'n':
-                s.create_numeric(df, nm, 'int64').data.write(np.array(f[which], dtype=np.int64))
+                written[nm] = _num_array(np, d, f[which])
+                _create_num(s, df, nm, d, scs).data.write(written[nm])
             else:
-                s.create_indexed_string(df, nm).data.write([_str(x) for x in f[which]])
+                written[nm] = _enc(np, f[which])
+                s.create_indexed_string(df, nm, chunksize=scs).data.write([_str(x) for x in f[which]])
         if len(_cache) > 6:
             _cache.pop(next(iter(_cache)))
-        _cache[key] = df
-        return df
+        _cache[key] = (df, written, prefix + tag)
+        return _cache[key]
 
-    o = mk('o', case['okeys'], case['ovf'], 'o')
-    n = mk('n', case['nkeys'], [100.0] * len(case['nkeys']), 'n')
-    r = ds.create_dataframe('r' + tag)
-    journal.journal_table(s, _Schema(['id'] + names + ['j_valid_from', 'j_valid_to']), o, n, 'id', r)
-    got = sorted(r.keys())
-    if got != sorted(names):
-        return ['result-fields', got]
-    out = []
-    for nm, f in zip(names, case['fields']):
-        fld = r[nm]
-        if f['k'] == 'n':
-            out.append([0, _ints(fld.data[:])])
+    o, o_written, o_name = mk('o', case['okeys'], [_vf(z, vft) for z in case['ovf']], 'o')
+    if form == 'alias':
+        n, n_written, n_name = o, o_written, o_name
+    else:
+        n, n_written, n_name = mk('n', case['nkeys'], [100.0] * len(case['nkeys']), 'n')
+    schema = _Schema(['id'] + names + ['j_valid_from', 'j_valid_to'])
+
+    def call(rname):
+        if form == 'h5':
+            # the argument form of journal.journal_test_harness: raw h5py groups for both sources and the destination
+            h5 = ds._file
+            rg = h5.create_group(rname)
+            with _Sizes(cs, scs, s):
+                journal.journal_table(s, schema, h5[o_name], h5[n_name], 'id', rg)
+            got = sorted(rg.keys())
+            getf = lambda nm: s.get(rg[nm])
         else:
-            # observed twice: raw storage and the decoded strings must agree
-            offs, vals = _ints(fld.indices[:]), _ints(fld.values[:])
-            dec = [list(x.encode('ascii')) for x in fld.data[:]]
-            if dec != [vals[offs[i]:offs[i + 1]] for i in range(len(offs) - 1)]:
-                return ['decode-mismatch', offs, vals]
-            out.append([1, offs, vals])
+            r = ds.create_dataframe(rname)
+            with _Sizes(cs, scs, s):
+                journal.journal_table(s, schema, o, n, 'id', r)
+            got = sorted(r.keys())
+            getf = lambda nm: r[nm]
+        if got != sorted(names):
+            return ['result-fields', got]
+        out = []
+        for nm, f, d in zip(names, case['fields'], dts):
+            fld = getf(nm)
+            if f['k'] == 'n':
+                out.append([0, _num_out(np, d, fld.data[:])])
+            else:
+                # observed twice: raw storage and the decoded strings must agree
+                offs, vals = _ints(fld.indices[:]), _ints(fld.values[:])
+                dec = [list(x.encode('utf-8')) for x in fld.data[:]]
+                if dec != [vals[offs[i]:offs[i + 1]] for i in range(len(offs) - 1)]:
+                    return ['decode-mismatch', offs, vals]
+                out.append([1, offs, vals])
+        return out
+
+    out = call('r' + tag)
+    if case.get('twice'):
+        out2 = call('q' + tag)
+        if out2 != out:
+            return ['second-call-differs', out, out2]
+    # journal_table only reads its two sources
+    for df, written in ((o, o_written), (n, n_written)):
+        for nm, w_ in written.items():
+            fld = df[nm]
+            if isinstance(w_, tuple):
+                same = (_ints(fld.indices[:]) or [0]) == _ints(w_[0]) and _ints(fld.values[:]) == _ints(w_[1])
+            else:
+                cur = fld.data[:]
+                same = len(cur) == len(w_) and bool((np.asarray(cur) == w_).all())
+            if not same:
+                return ['source-table-modified', nm]
     return out
 
 
@@ -239,7 +460,12 @@ def _wire_fields(case):
 def to_val(case):
     op = case['op']
     if op == 'table':
-        return [1, case['okeys'], case['ovf'], case['nkeys'], _wire_fields(case)]
+        w = _swidth(case['kd'])
+        w = w if (w is not None and w >= 2) else 0      # 0: the keys are integers ordered like the real keys
+        cs = case.get('cs')
+        scs = case.get('scs')
+        return [4, w, (1 << 20) if cs is None else cs, (1 << 20) if scs is None else scs,
+                case['okeys'], case['ovf'], case['nkeys'], _wire_fields(case)]
     if op == 'pipe':
         return [2, case['okeys'], case['nkeys'], _wire_fields(case)]
     if op == 'indices':
@@ -264,11 +490,10 @@ def in_domain(case):
     """The property's precondition: snapshot keys unique; for pipe also sorted inputs."""
     if case['op'] == 'indices':
         return False
-    nk = case['nkeys']
+    ok, nk = _kz(case)
     if len(set(nk)) != len(nk):
         return False
     if case['op'] == 'pipe':
-        ok = case['okeys']
         return all(ok[i] <= ok[i + 1] for i in range(len(ok) - 1)) and all(nk[i] < nk[i + 1] for i in range(len(nk) - 1))
     return True
 
@@ -285,7 +510,7 @@ def from_val(case, v):
 
 def _stats(case):
     """Per-key classification of a table/pipe case (python restatement used only for the histogram)."""
-    ok, nk = case['okeys'], case['nkeys']
+    ok, nk = _kz(case)
     ovf = case.get('ovf', [0] * len(ok))
     st = set()
     for k in sorted(set(ok) | set(nk)):
@@ -326,7 +551,7 @@ def features(case, model):
         f.append('malformed')
         return f
     f.extend(sorted(_stats(case)))
-    ok, nk = case['okeys'], case['nkeys']
+    ok, nk = _kz(case)
     if not ok: f.append('empty-old')
     if not nk: f.append('empty-new')
     if ok != sorted(ok): f.append('old-physically-unsorted')
@@ -334,9 +559,85 @@ def features(case, model):
     kinds = [x['k'] for x in case['fields']]
     f.append('cols:' + ''.join(kinds))
     if any(x['k'] == 's' and any(len(c) == 0 for c in x['o'] + x['n']) for x in case['fields']): f.append('empty-string-cell')
-    if case['op'] == 'table': f.append('kd:' + case['kd'])
-    f.append('rows-old:%d' % len(ok))
+    if case['op'] == 'table':
+        f.append('kd:' + case['kd'])
+        f.extend(_table_features(case, model, ok, nk))
+    f.append('rows-old:' + _bucket(len(ok)))
     return f
+
+
+def _bucket(n):
+    return str(n) if n < 8 else ('8-15' if n < 16 else '16-63' if n < 64 else '64-255' if n < 256 else '>=256')
+
+
+def _table_features(case, model, ok, nk):
+    f = []
+    cs, scs = case.get('cs'), case.get('scs')
+    rows = None
+    if isinstance(model, list) and model:
+        c0 = model[0]
+        rows = len(c0[1]) if c0[0] == 0 else len(c0[1]) - 1
+    if cs is not None:
+        f.append('cs:' + _bucket(cs))
+        if rows is not None:
+            nseg = -(-rows // cs) if rows else 0
+            f.append('result-segments:' + _bucket(nseg))
+            if nseg >= 2:
+                f.append('multi-segment-result')
+                # which kind of row ends a full segment (the last old version of a key / an appended snapshot record)
+                plan = _plan_kinds(case, ok, nk)
+                if plan is not None and len(plan) == rows:
+                    ends = set(plan[i] for i in range(cs - 1, rows - 1, cs))
+                    if 'N' in ends: f.append('segment-ends-with-appended-record')
+                    if 'O' in ends: f.append('segment-ends-with-old-version')
+                    if rows % cs == 0: f.append('result-fills-last-segment-exactly')
+        if cs <= max(len(ok), len(nk), 1) - 1: f.append('multi-segment-source')
+    if scs is not None: f.append('scs:' + _bucket(scs))
+    if case.get('vft'): f.append('vft:%d' % case['vft'])
+    if case.get('form', 'df') != 'df': f.append('form:' + case['form'])
+    if case.get('twice'): f.append('journalled-twice')
+    w = _swidth(case['kd'])
+    if w is not None and w >= 2:
+        WS = b' \t\n\r\x0b\x0c\0'
+        ks = [bytes(k).rstrip(b'\0') for k in case['okeys'] + case['nkeys']]
+        if any(k != k.rstrip(WS) for k in ks): f.append('key-trailing-whitespace')
+        if any(b'\0' in k for k in ks): f.append('key-embedded-nul')
+        if any(max(k, default=0) >= 128 for k in ks): f.append('key-byte>=0x80')
+        if len(set(k.rstrip(WS) for k in set(ks))) < len(set(ks)): f.append('keys-equal-after-stripping')
+        if len(set(k.lower() for k in set(ks))) < len(set(ks)): f.append('keys-equal-ignoring-case')
+        sn = [bytes(k).rstrip(WS) for k in case['nkeys']]
+        if nk != sorted(nk) and all(nk[i] < nk[i + 1] or sn[i] == sn[i + 1] for i in range(len(nk) - 1)):
+            f.append('snapshot-ordered-only-after-stripping')
+    elif w is None:
+        allk = ok + nk
+        if any(abs(k) > 2 ** 53 for k in allk): f.append('key-beyond-2^53')
+        if any(k < 0 for k in allk): f.append('key-negative')
+        if any(k >= 2 ** 63 for k in allk): f.append('key>=2^63')
+    if nk and nk == sorted(nk): f.append('snapshot-physically-sorted')
+    for x in case['fields']:
+        if x['k'] == 'n':
+            if x.get('d'): f.append('payload:' + x['d'])
+            if any(abs(v) > 2 ** 53 for v in x['o'] + x['n']) and _swidth(x.get('d')) is None: f.append('payload-beyond-2^53')
+        else:
+            cells = x['o'] + x['n']
+            if any(len(c) >= 256 for c in cells): f.append('string-cell>=256-bytes')
+            if any(max(c, default=0) >= 128 for c in cells): f.append('string-non-ascii')
+    f.append('fields:%d' % len(case['fields']))
+    return f
+
+
+def _plan_kinds(case, ok, nk):
+    """'O'/'N' per result row (python restatement of the specification's plan, for the histogram only)"""
+    ovf = case['ovf']
+    out = []
+    for k in sorted(set(ok) | set(nk)):
+        rows = sorted((i for i in range(len(ok)) if ok[i] == k), key=lambda i: (ovf[i], i))
+        out.extend('O' * len(rows))
+        js = [j for j in range(len(nk)) if nk[j] == k]
+        if js:
+            if not rows or any(x['o'][rows[-1]] != x['n'][js[0]] for x in case['fields']):
+                out.append('N')
+    return out
 
 
 def nontrivial(case, model):
@@ -362,13 +663,94 @@ def skip(case, mode):
     return (h % 2 == 0) != (mode == 'jit')
 
 
+# ---- planted value domains ---------------------------------------------------------------------------------------
+NUM_KD = ['int8', 'uint8', 'int16', 'uint16', 'int32', 'uint32', 'int64', 'uint64', 'float32', 'float64']
+NUM_KD_QUICK = ['int8', 'uint8', 'int32', 'int64', 'uint64', 'float32', 'float64']   # every dtype = one more compilation
+KEY_PALETTE = {     # ascending; the extremes of the dtype, the neighbours of 0, of the sign bit and of 2^53 / 2^24
+    'int8': [-128, -127, -1, 0, 1, 126, 127],
+    'uint8': [0, 1, 127, 128, 254, 255],
+    'int16': [-32768, -256, -1, 0, 255, 256, 32767],
+    'uint16': [0, 1, 255, 256, 32767, 32768, 65535],
+    'int32': [-2 ** 31, -65536, -1, 0, 65535, 65536, 2 ** 31 - 1],
+    'uint32': [0, 1, 65536, 2 ** 31 - 1, 2 ** 31, 2 ** 32 - 1],
+    'int64': [-2 ** 63, -2 ** 53 - 1, -2 ** 53, -1, 0, 2 ** 53, 2 ** 53 + 1, 2 ** 63 - 2, 2 ** 63 - 1],
+    'uint64': [0, 1, 2 ** 53, 2 ** 53 + 1, 2 ** 63 - 1, 2 ** 63, 2 ** 64 - 2, 2 ** 64 - 1],
+    'float32': [-2 ** 30, -2, -1, 0, 1, 2 ** 24 - 1, 2 ** 24, 2 ** 30],
+    'float64': [-2 ** 60, -2, -1, 0, 1, 2 ** 53 - 1, 2 ** 53, 2 ** 62],
+}
+# bytes of the fixed-string keys: NUL (pad / embedded), tab, blank, upper / lower case of one letter, first byte with the
+# sign bit set, 0xff
+KEY_BYTES = [0, 9, 32, 65, 97, 128, 255]
+# payload dtypes: a strictly increasing map from the small row-identity integers (< 256) into the dtype, placed where a
+# narrower / floating comparison loses the difference
+PAYLOAD_D = ['int8', 'int32', 'int64hi', 'int64lo', 'uint64', 'float32', 'float64', 'S2']
+PAYLOAD_D_QUICK = ['int8', 'int64hi', 'int64lo', 'uint64', 'float32', 'float64', 'S2']
+
+
+def _pmap(d, v):
+    if d == 'int8': return v - 128 if v >= 128 else v
+    if d == 'int32': return v + 2 ** 31 - 300
+    if d == 'int64hi': return v + 2 ** 62 + 2 ** 54         # neighbours differ below the float64 mantissa
+    if d == 'int64lo': return v - 2 ** 63
+    if d == 'uint64': return v + 2 ** 64 - 300
+    if d == 'float32': return v + 2 ** 24 - 300                # exactly representable, neighbours 1 apart
+    if d == 'float64': return v + 2 ** 53 - 300
+    if d == 'S2': return (65 + v // 4) * 256 + [0, 32, 9, 255][v % 4]   # 'A', 'A ', 'A\t', 'A\xff', 'B', ...
+    return v
+
+
+_PD_DTYPE = {'int64hi': 'int64', 'int64lo': 'int64'}
+
+
+def _retype(f, d):
+    """numeric payload column f (small non-negative integers) re-expressed in payload domain d"""
+    if f['k'] != 'n' or d is None:
+        return f
+    g = dict(f)
+    g['o'] = [_pmap(d, v) for v in f['o']]
+    g['n'] = [_pmap(d, v) for v in f['n']]
+    g['d'] = _PD_DTYPE.get(d, d)
+    return g
+
+
+def _restring(f, sv):
+    """indexed-string payload column re-expressed: utf8 = every letter becomes a 2-byte character (characters != bytes);
+    long = every cell gets a 255..257-byte prefix that depends only on the cell (cells >= 256 bytes that differ only at
+    the very end / only in length)"""
+    if f['k'] != 's' or not sv:
+        return f
+
+    def tr(c):
+        if sv == 'utf8':
+            out = []
+            for b in c:
+                out.extend([0xC3, 0xA0 + (b - 97) % 26] if b % 2 else [0xE2, 0x82, 0xAC, b])   # à.. / €+letter
+            return out
+        if sv == 'long':
+            return [120] * (255 + len(c) % 3) + list(c)
+        return c
+    g = dict(f)
+    g['o'] = [tr(c) for c in f['o']]
+    g['n'] = [tr(c) for c in f['n']]
+    return g
+
+
+def _skeys(w, alphabet=KEY_BYTES):
+    """every distinct cell of an S<w> column over the alphabet (as byte lists without trailing NULs), ascending"""
+    seen = {}
+    for t in itertools.product(alphabet, repeat=w):
+        b = bytes(t).rstrip(b'\0')
+        seen[b.ljust(w, b'\0')] = list(b)
+    return [seen[k] for k in sorted(seen)]
+
+
 # ---- generators
 def _payload(okeys, ovf, nkeys, kinds, pattern):
     """Build payload columns. Old numeric cell of physical row i = 10+i (row identity); old string cell of row i =
     i%3 letters.  pattern: dict key -> one of 'same','num','str','both' for keys present in both tables."""
     nold = len(okeys)
     onum = [10 + i for i in range(nold)]
-    ostr = [[97 + i] * (i % 3) for i in range(nold)]
+    ostr = [[97 + i % 26] * (i % 3) for i in range(nold)]
     nnum, nstr = [], []
     for j, k in enumerate(nkeys):
         rows = sorted((i for i in range(nold) if okeys[i] == k), key=lambda i: (ovf[i], i))
@@ -383,7 +765,7 @@ def _payload(okeys, ovf, nkeys, kinds, pattern):
                 s = s[:-1] if (s and j % 2 == 0) else s + [122]
             nnum.append(v); nstr.append(s)
         else:
-            nnum.append(70 + j); nstr.append([110 + j] * (j % 2))
+            nnum.append(70 + j); nstr.append([110 + j % 12] * (j % 2))
     fields = []
     for kd in kinds:
         if kd == 'n':
@@ -449,6 +831,75 @@ def gen(tier, rng):
         yield {'op': 'pipe', 'okeys': okeys, 'nkeys': nkeys,
                'fields': _payload(okeys, [0] * no, nkeys, ['n', 's'], dict((k, rng.choice(['same', 'num', 'str'])) for k in nkeys))}
     # ---- table: the real journal_table on HDF5 groups
+    yield from _gen_tables(tier, rng)
+
+
+# size parameters given to the real code (None = the library's 2^20)
+CS_ROT = [1, 2, 3, None, 4, 1, 5, 2, 7, 3]
+SCS_ROT = [1, 2, 3, None, 5, 2, 8, 1, 64, 3, 4096, 7]     # small field chunk sizes also make a case cheaper (write buffers)
+
+
+def _dress(case, c, rng=None):
+    """rotate the configuration dimensions over consecutive cases (c = running counter)"""
+    case['cs'] = CS_ROT[c % len(CS_ROT)]
+    case['scs'] = SCS_ROT[c % len(SCS_ROT)]
+    if case['cs'] is None: del case['cs']
+    if case['scs'] is None: del case['scs']
+    if c % 8 == 5: case['twice'] = True
+    if c % 5 == 3: case['form'] = 'h5'
+    return case
+
+
+def _shape_table(shape, rng, kinds, kd='int64', keymap=None):
+    """shape = per key (ascending) a pair (number of old versions, snapshot status) with status in
+    'absent' | 'same' | 'num' | 'str' | 'both' | (0 versions:) 'new'.  Both tables are physically shuffled."""
+    rows, nk = [], []
+    for k, (v, st) in enumerate(shape):
+        for t in range(v):
+            rows.append((k, t + 1))
+        if st != 'absent':
+            nk.append(k)
+    rng.shuffle(rows)
+    rng.shuffle(nk)
+    okeys = [k for k, _ in rows]
+    ovf = [t for _, t in rows]
+    pat = dict((k, st) for k, (v, st) in enumerate(shape) if v and st not in ('absent', 'new'))
+    fields = _payload(okeys, ovf, nk, kinds, pat)
+    if keymap is not None:
+        okeys = [keymap[k] for k in okeys]
+        nk = [keymap[k] for k in nk]
+    return {'op': 'table', 'kd': kd, 'okeys': okeys, 'ovf': ovf, 'nkeys': nk, 'fields': fields}
+
+
+def _confine(case, rng):
+    """differences confined to ONE column: for every key present in both tables whose snapshot record differs, one
+    (seeded) compared field keeps its difference and every other field is reset to the latest old version"""
+    ok, nk = _kz(case)
+    ovf = case['ovf']
+    fields = [dict(f, n=list(f['n'])) for f in case['fields']]
+    for j, k in enumerate(nk):
+        rows = sorted((i for i in range(len(ok)) if ok[i] == k), key=lambda i: (ovf[i], i))
+        if not rows:
+            continue
+        last = rows[-1]
+        dif = [i for i, f in enumerate(fields) if f['o'][last] != f['n'][j]]
+        if len(dif) >= 2:
+            keep = rng.choice(dif)
+            for i in dif:
+                if i != keep:
+                    fields[i]['n'][j] = fields[i]['o'][last]
+    case['fields'] = fields
+    return case
+
+
+def _rows_of(shape):
+    return sum(v for v, _ in shape) + sum(1 for v, st in shape if st in ('new', 'num', 'str', 'both'))
+
+
+def _gen_tables(tier, rng):
+    from harness import hot
+    big = tier == 'thorough'
+    more = 3 if hot.changed() else 1          # a library source differs from the recorded tree: larger random budget
     kds = ['int32', 'int64', 'S1']
     c = 0
     nmax = 4 if big else 3
@@ -457,19 +908,177 @@ def gen(tier, rng):
         for sub in itertools.combinations([0, 1, 3], r):
             for perm in itertools.permutations(sub):
                 news.append(list(perm))
+    # A. every small old table x every snapshot arrangement; size parameters / argument form / timestamp map rotate
     for no in range(0, nmax + 1):
         for okeys in itertools.product(range(3), repeat=no):
             for ovf in itertools.product((1, 2), repeat=no):
                 okeys_, ovf_ = list(okeys), list(ovf)
                 c += 1      # key dtype and column layout rotate per OLD table (so that the old table is shared)
                 kinds = [['n', 's'], ['s', 'n'], ['n'], ['s']][c % 4] if c % 3 else ['n', 's']
+                scs = SCS_ROT[c % len(SCS_ROT)]
+                vft = c % 4
+                q = 0
                 for nkeys in news:
                     matched = [k for k in nkeys if k in okeys_]
                     for p in _patterns(matched, kinds, rng, False):
-                        yield {'op': 'table', 'kd': kds[c % 3], 'okeys': okeys_, 'ovf': ovf_, 'nkeys': nkeys,
-                               'fields': _payload(okeys_, ovf_, nkeys, kinds, p)}
-    # table: seeded larger tables
-    for t in range(6000 if big else 800):
+                        q += 1
+                        case = {'op': 'table', 'kd': kds[c % 3], 'okeys': okeys_, 'ovf': ovf_, 'nkeys': nkeys,
+                                'fields': _payload(okeys_, ovf_, nkeys, kinds, p)}
+                        if CS_ROT[(c + q) % len(CS_ROT)] is not None: case['cs'] = CS_ROT[(c + q) % len(CS_ROT)]
+                        if scs is not None: case['scs'] = scs
+                        if vft: case['vft'] = vft
+                        if (c + q) % 11 == 0: case['twice'] = True
+                        if (c + q) % 7 == 0: case['form'] = 'h5'
+                        yield case
+    # B. result layouts x every segment size: every sequence of <= 3 key blocks (1-2 old versions x snapshot record
+    #    absent / unchanged / changed, or a key only in the snapshot) x every cs from 1 to the number of result rows
+    blocks = [(v, st) for v in (1, 2) for st in ('absent', 'same', 'chg')] + [(0, 'new')]
+    layouts = ['n', 'ns', 'sn', 'nsn'] if big else ['n', 'ns', 'sn']
+    q = 0
+    for nkeys_ in (1, 2, 3, 4) if big else (1, 2, 3):
+        for shape in itertools.product(blocks, repeat=nkeys_):
+            if nkeys_ == 4 and rng.random() > 0.25:
+                continue
+            q += 1
+            kinds = list(layouts[q % len(layouts)])
+            chg = 'both' if len(set(kinds)) == 2 else ('num' if 'n' in kinds else 'str')
+            shp = [(v, [chg, 'num' if 'n' in kinds else 'str', 'str' if 's' in kinds else 'num'][(q + i) % 3] if st == 'chg' else st)
+                   for i, (v, st) in enumerate(shape)]
+            rows = _rows_of(shp)
+            for cs in range(1, max(1, rows) + 1):
+                case = _shape_table(shp, rng, kinds, kd=kds[(q + cs) % 3])
+                case['cs'] = cs
+                if (q + cs) % 6: case['scs'] = 1 + (q + cs) % 5
+                if (q + cs) % 13 == 0: case['twice'] = True
+                if (q + cs) % 9 == 0: case['form'] = 'h5'
+                yield case
+    # C. fixed-string keys: every pair of distinct S2 cells over KEY_BYTES, the snapshot in both physical orders
+    cells = _skeys(2)
+    q = 0
+    for x, y in itertools.combinations(cells, 2):
+        q += 1
+        keymap = [x, y]
+        extra = rng.choice(cells)
+        if extra not in keymap and q % 3 == 0:
+            keymap = sorted(keymap + [extra], key=lambda k: bytes(k).ljust(2, b'\0'))
+        nk_ = len(keymap)
+        for order in ((1, 0) if q % 3 == 0 else (1,)):      # descending for every pair, ascending for every third
+            shape = [(rng.choice([1, 1, 2]), rng.choice(['same', 'num', 'str', 'both'])) for _ in range(nk_)]
+            if rng.random() < 0.3:
+                shape[rng.randrange(nk_)] = (0, 'new')
+            case = _shape_table(shape, rng, ['n', 's'], kd='S2', keymap=keymap)
+            srt = sorted(case['nkeys'], key=lambda k: bytes(k).ljust(2, b'\0'))
+            perm = srt if order == 0 else list(reversed(srt))
+            # re-express the snapshot in that physical order
+            idx = [case['nkeys'].index(k) for k in perm]
+            case['nkeys'] = perm
+            case['fields'] = [dict(f, n=[f['n'][i] for i in idx]) for f in case['fields']]
+            yield _dress(case, q + order)
+    #    wider keys (S3, S4, S8): cells that share a prefix and differ in their tail / padding
+    for t in range((3000 if big else 500) * more):
+        w = rng.choice([3, 4, 4, 8])
+        stem = [rng.choice([97, 112, 65, 48, 255]) for _ in range(rng.randint(0, w - 1))]
+        pool = {}
+        for _ in range(8):
+            tail = [rng.choice(KEY_BYTES) for _ in range(rng.randint(0, w - len(stem)))]
+            k = bytes(stem + tail).rstrip(b'\0')
+            pool[k.ljust(w, b'\0')] = list(k)
+        keymap = [pool[k] for k in sorted(pool)][:rng.randint(2, 5)]
+        shape = [(rng.choice([0, 1, 1, 2]), rng.choice(['absent', 'same', 'num', 'str', 'both'])) for _ in keymap]
+        shape = [(v, 'new' if v == 0 else st) for v, st in shape]
+        case = _shape_table(shape, rng, rng.choice([['n', 's'], ['n'], ['s', 'n']]), kd='S%d' % w, keymap=keymap)
+        r = rng.random()
+        if r < 0.6:     # snapshot stored in ascending / descending / rotated key order
+            srt = sorted(case['nkeys'], key=lambda k: bytes(k).ljust(w, b'\0'))
+            perm = srt if r < 0.25 else (list(reversed(srt)) if r < 0.4 else srt[1:] + srt[:1])
+            if r >= 0.5 and len(srt) >= 2:
+                i = rng.randrange(len(srt) - 1)
+                perm = list(srt); perm[i], perm[i + 1] = perm[i + 1], perm[i]     # one adjacent transposition
+            idx = [case['nkeys'].index(k) for k in perm]
+            case['nkeys'] = perm
+            case['fields'] = [dict(f, n=[f['n'][i] for i in idx]) for f in case['fields']]
+        yield _dress(case, t)
+    # D. numeric keys at the extremes of every dtype: every pair of palette values, snapshot in both orders; + triples
+    q = 0
+    for kd in (NUM_KD if big else NUM_KD_QUICK):
+        pal = KEY_PALETTE[kd]
+        combos = list(itertools.combinations(pal, 2))
+        combos += [tuple(sorted(rng.sample(pal, 3))) for _ in range(12 if big else 4)]
+        for keymap in combos:
+            for order in (0, 1):
+                q += 1
+                shape = [(rng.choice([1, 1, 2]), rng.choice(['same', 'num', 'str', 'both'])) for _ in keymap]
+                if rng.random() < 0.3:
+                    shape[rng.randrange(len(keymap))] = (0, 'new')
+                case = _shape_table(shape, rng, ['n', 's'], kd=kd, keymap=list(keymap))
+                srt = sorted(case['nkeys'])
+                perm = srt if order == 0 else list(reversed(srt))
+                idx = [case['nkeys'].index(k) for k in perm]
+                case['nkeys'] = perm
+                case['fields'] = [dict(f, n=[f['n'][i] for i in idx]) for f in case['fields']]
+                case['vft'] = q % 4
+                yield _dress(case, q)
+    # E. payload domains: every numeric payload dtype / string form on seeded tables of 2-6 rows
+    pds = PAYLOAD_D if big else PAYLOAD_D_QUICK
+    for t in range((4000 if big else 700) * more):
+        nk_ = rng.randint(1, 4)
+        shape = [(rng.choice([0, 1, 1, 2, 3]), rng.choice(['absent', 'same', 'same', 'num', 'str', 'both'])) for _ in range(nk_)]
+        shape = [(v, 'new' if v == 0 else st) for v, st in shape]
+        kinds = rng.choice([['n', 's'], ['n', 's'], ['s', 'n'], ['n', 'n'], ['n', 's', 'n'], ['n'], ['s']])
+        case = _shape_table(shape, rng, kinds, kd=rng.choice(kds + ['int64', 'uint8']))
+        if t % 2 and len(kinds) >= 2:
+            _confine(case, rng)
+        if case['kd'] == 'uint8': case['okeys'] = [200 + k for k in case['okeys']]; case['nkeys'] = [200 + k for k in case['nkeys']]
+        sv = [None, 'utf8', 'long', 'utf8'][t % 4]
+        fs = []
+        for i, f in enumerate(case['fields']):
+            if f['k'] == 'n':
+                # with two numeric columns the second keeps int64 so that a difference confined to it is visible
+                fs.append(_retype(f, pds[(t + i) % len(pds)]) if (i == 0 or t % 3) else f)
+            else:
+                fs.append(_restring(f, sv))
+        case['fields'] = fs
+        case['vft'] = t % 4
+        yield _dress(case, t)
+    # F. tables beyond the exhaustive scope: 8-48 rows, 3-16 keys, up to 4 versions, small segment sizes
+    for t in range((2500 if big else 350) * more):
+        nk_ = rng.randint(3, 16 if t % 4 else 24)
+        shape = [(rng.choice([0, 1, 1, 1, 2, 2, 3, 4]), rng.choice(['absent', 'same', 'same', 'num', 'str', 'both'])) for _ in range(nk_)]
+        shape = [(v, 'new' if v == 0 else st) for v, st in shape]
+        kinds = rng.choice([['n', 's'], ['n', 's'], ['s', 'n'], ['n'], ['s'], ['n', 's', 'n']])
+        kd = rng.choice(['int32', 'int64', 'int8' if len(shape) < 100 else 'int64', 'uint64', 'float64'])
+        case = _shape_table(shape, rng, kinds, kd=kd)
+        if rng.random() < 0.3:      # snapshot physically sorted, or sorted except one adjacent transposition
+            srt = sorted(case['nkeys'])
+            if rng.random() < 0.5 and len(srt) >= 2:
+                i = rng.randrange(len(srt) - 1); srt[i], srt[i + 1] = srt[i + 1], srt[i]
+            idx = [case['nkeys'].index(k) for k in srt]
+            case['nkeys'] = srt
+            case['fields'] = [dict(f, n=[f['n'][i] for i in idx]) for f in case['fields']]
+        if rng.random() < 0.2:      # old table physically in (key, j_valid_from) order already
+            order = sorted(range(len(case['okeys'])), key=lambda i: (case['okeys'][i], case['ovf'][i], i))
+            case['okeys'] = [case['okeys'][i] for i in order]; case['ovf'] = [case['ovf'][i] for i in order]
+            case['fields'] = [dict(f, o=[f['o'][i] for i in order]) for f in case['fields']]
+        _dress(case, t)
+        rows = _rows_of(shape)
+        case['cs'] = rng.choice([1, 2, 3, 4, 5, 6, 7, 8, 16, max(1, rows - 1), rows, max(1, rows // 2)])
+        case['vft'] = t % 4
+        if t % 10 == 0:
+            case['allmodes'] = True
+        yield case
+    # G. the snapshot is the old table itself (old_src is new_src): unique keys, nothing may be appended
+    for t in range(120 if big else 40):
+        n_ = rng.randint(0, 5)
+        keys = rng.sample(range(8), n_)
+        kinds = rng.choice([['n', 's'], ['s'], ['n']])
+        fields = _payload(keys, [1] * n_, [], kinds, {})
+        fields = [dict(f, n=list(f['o'])) for f in fields]
+        case = {'op': 'table', 'kd': kds[t % 3], 'okeys': keys, 'ovf': [1] * n_, 'nkeys': list(keys), 'fields': fields,
+                'form': 'alias', 'allmodes': True}
+        if t % 2: case['cs'] = 1 + t % 3
+        yield case
+    # H. seeded 4-7 row tables (as before the strengthening, now with rotating size parameters)
+    for t in range((6000 if big else 800) * more):
         no = rng.randint(nmax + 1, 7 if big else 6)
         nk = rng.randint(2, 4)
         okeys = [rng.randint(0, nk - 1) * 2 for _ in range(no)]
@@ -483,9 +1092,15 @@ def gen(tier, rng):
         p = dict((k, rng.choice(opts)) for k in matched)
         case = {'op': 'table', 'kd': kds[t % 3], 'okeys': okeys, 'ovf': ovf, 'nkeys': nkeys,
                 'fields': _payload(okeys, ovf, nkeys, kinds, p)}
+        _dress(case, t)
         if t % 10 == 0:
             case['allmodes'] = True
         yield case
+    # I. change-directed: a small integer literal that is NEW in the tree under test (harness/hot.py) is planted as
+    #    number of rows of either table / of the result, number of keys, run length of versions, segment size,
+    #    key width and string-cell length
+    for K in hot.hot_sizes():
+        yield from _gen_hot(K, tier, rng)
     # table, malformed: duplicate snapshot keys (model = code only)
     for t in range(200 if big else 60):
         no = rng.randint(1, 4)
@@ -496,6 +1111,66 @@ def gen(tier, rng):
                'fields': _payload(okeys, ovf, nkeys, ['n', 's'], dict((k, rng.choice(['same', 'num', 'str'])) for k in nkeys))}
 
 
+HOT_ROWS_MAX = 520      # the extracted model (insertion sort over lists of inductive integers) is cubic: ~1 s at 500 rows
+
+
+def _gen_hot(K, tier, rng):
+    big = tier == 'thorough'
+    sizes = sorted(set(x for x in (K - 1, K, K + 1, 2 * K - 1, 2 * K, 2 * K + 1, 3 * K) if 1 <= x <= HOT_ROWS_MAX))
+    t = 0
+    for L in sizes:
+        for rep in range((6 if big else 3) if L <= 128 else (2 if big else 1)):
+            for what in ('result', 'old', 'new', 'run'):
+                t += 1
+                if what == 'result':      # L result rows: alternating old version / appended record, phase varies
+                    shape = []
+                    while _rows_of(shape) < L:
+                        left = L - _rows_of(shape)
+                        opts = [(1, 'absent'), (0, 'new')] + ([(1, 'num'), (1, 'both'), (2, 'same')] if left >= 2 else [])
+                        shape.append(rng.choice(opts) if rep else opts[-1] if left >= 2 else opts[t % 2])
+                elif what == 'old':       # L old rows
+                    shape = [(1, rng.choice(['absent', 'same', 'num', 'both'])) for _ in range(L)]
+                elif what == 'new':       # L snapshot rows
+                    shape = [rng.choice([(1, 'same'), (1, 'num'), (0, 'new'), (1, 'both')]) for _ in range(L)]
+                else:                     # a key with L / L+-1 versions among short ones
+                    shape = [(1, 'num'), (L, rng.choice(['same', 'num', 'absent'])), (0, 'new'), (2, 'both')]
+                    if sum(v for v, _ in shape) > HOT_ROWS_MAX:
+                        continue
+                kinds = [['n', 's'], ['n'], ['s', 'n']][t % 3]
+                case = _shape_table(shape, rng, kinds, kd=['int64', 'int32', 'S1' if len(shape) <= 26 else 'int64'][t % 3])
+                if case['kd'] == 'S1' and len(shape) > 4:
+                    case['kd'] = 'int32'
+                case['cs'] = [K, K - 1 if K > 1 else 1, K + 1, 1, 2 * K, max(1, K // 2)][t % 6]
+                if t % 2: case['scs'] = [K, K + 1, max(1, K - 1)][t % 3]
+                yield case
+    # K as a byte count: key width, string-cell length, fixed-string payload width
+    for rep in range(12 if big else 4):
+        for w in (K - 1, K, K + 1):
+            if 2 <= w <= 64:
+                stem = [97] * (w - 2)
+                keymap = sorted(([stem + tail for tail in ([], [32], [97], [97, 32], [97, 97], [0, 97])]),
+                                key=lambda k: bytes(k).ljust(w, b'\0'))
+                shape = [(rng.choice([0, 1, 2]), rng.choice(['same', 'num', 'both'])) for _ in keymap]
+                shape = [(v, 'new' if v == 0 else st) for v, st in shape]
+                case = _shape_table(shape, rng, ['n', 's'], kd='S%d' % w, keymap=keymap)
+                yield _dress(case, rep + w)
+            if 1 <= w <= 6000:
+                shape = [(rng.choice([1, 2]), rng.choice(['same', 'str', 'str'])) for _ in range(3)] + [(0, 'new')]
+                case = _shape_table(shape, rng, ['s', 'n'], kd='int32')
+                pre = [120] * max(0, w - 2)
+                case['fields'] = [dict(f, o=[pre + c for c in f['o']], n=[pre + c for c in f['n']]) if f['k'] == 's' else f
+                                  for f in case['fields']]
+                yield _dress(case, rep + w)
+    # K compared fields
+    if 2 <= K <= 12:
+        for rep in range(6 if big else 2):
+            for nf in (K - 1, K, K + 1):
+                kinds = [rng.choice('ns') for _ in range(nf)]
+                shape = [(rng.choice([1, 2]), rng.choice(['same', 'num', 'str', 'both'])) for _ in range(3)] + [(0, 'new')]
+                case = _shape_table(shape, rng, kinds, kd='int64')
+                yield _dress(_confine(case, rng), rep + nf)
+
+
 def shrink(case):
     if case['op'] == 'indices':
         for key in ('old', 'new'):
@@ -503,6 +1178,12 @@ def shrink(case):
                 c = dict(case); c[key] = case[key][:i] + case[key][i + 1:]; yield c
         return
     no, nn = len(case['okeys']), len(case['nkeys'])
+    # configuration dimensions first: a failure that does not need them is reported without them
+    for key in ('twice', 'form', 'scs', 'vft', 'allmodes', 'cs'):
+        if key in case and not (key == 'form' and case[key] == 'alias'):
+            c = dict(case); del c[key]; yield c
+    if case.get('cs', 1) > 1:
+        c = dict(case); c['cs'] = case['cs'] - 1; yield c
     for i in range(no):
         c = dict(case)
         c['okeys'] = case['okeys'][:i] + case['okeys'][i + 1:]
